@@ -17,7 +17,7 @@ use serde_json::{json, Value};
 use std::io::{BufRead, Write};
 use std::sync::Mutex;
 
-/// namespaced project (ids `common`, `home`, `extra`), from this crate's Cargo.toml + locales/
+/// namespaced project (ids `common`, `home`, `user-menu`: a name that is not its Rust identifier), from this crate's Cargo.toml + locales/
 mod ns {
     leptos_i18n::load_locales!();
 }
@@ -57,7 +57,7 @@ type NsId = <NsLocale as LocaleTrait>::TranslationUnitId;
 type FlatLocale = flat::i18n::Locale;
 
 const NS_LOCALES: [NsLocale; NL] = [NsLocale::en, NsLocale::fr, NsLocale::pt_BR];
-const NS_IDS: [NsId; NI] = [NsId::common, NsId::home, NsId::extra];
+const NS_IDS: [NsId; NI] = [NsId::common, NsId::home, NsId::user_menu];
 const FLAT_LOCALES: [FlatLocale; NL] = [FlatLocale::en, FlatLocale::fr, FlatLocale::pt_BR];
 
 /// translation unit (locale L, namespace I) of the namespaced project
